@@ -41,6 +41,32 @@ for line in real_stdin:
             finally:
                 sys.stdin = real_stdin
             out = {"stdout": buf.getvalue()}
+        elif q["kind"] == "fs":
+            # a change of the files between two queries (the files are inputs of the later query)
+            import os
+            import shutil
+
+            path = q["path"]
+            if q["op"] == "write":
+                st = os.stat(path) if (q.get("keep_stamp") and os.path.exists(path)) else None
+                if os.path.islink(path):
+                    os.unlink(path)
+                with open(path, "w") as f:
+                    f.write(q["content"])
+                if st is not None:
+                    os.utime(path, ns=(st.st_atime_ns, st.st_mtime_ns))
+            elif q["op"] == "remove":
+                if os.path.isdir(path) and not os.path.islink(path):
+                    shutil.rmtree(path)
+                elif os.path.lexists(path):
+                    os.unlink(path)
+            elif q["op"] == "mkdir":
+                os.makedirs(path, exist_ok=True)
+            elif q["op"] == "symlink":
+                if os.path.lexists(path):
+                    os.unlink(path)
+                os.symlink(q["target"], path)
+            out = {"fs": "ok"}
         elif q["kind"] == "cacheinfo":
             ci = CLI._load_handler.cache_info()
             out = {"hits": ci.hits, "misses": ci.misses, "maxsize": ci.maxsize, "currsize": ci.currsize}
